@@ -15,17 +15,17 @@ Why(e) ==
   ELSE IF e.cfg_panic # "" THEN "get_program_cfg panicked"
   ELSE IF ~BlockShapes(e.norm) THEN "BlockShapes"
   ELSE IF ~CallTargetsExist(e.norm) THEN "CallTargetsExist"
-  ELSE IF ~GraphMatches(e.nodes, e.edges, e.entries, e.norm) THEN "graph differs from Cfg!Graph(norm)"
-  ELSE ""
+  ELSE GraphDiff(e.nodes, e.edges, e.entries, e.norm)
 \* a raw program outside the input class is skipped (and counted by the driver)
-EventOK(e) ==
-  IF ~RawInClass(e.raw) THEN PrintT(<<"SKIP", l>>)
-  ELSE LET w == Why(e) IN IF w = "" THEN TRUE ELSE PrintT(<<"WHY", l, w>>) /\ FALSE
+Verdict(e) == IF ~RawInClass(e.raw) THEN "skip" ELSE Why(e)
 
 Init == l = 1
 Next == /\ l <= Len(Rec)
         /\ l' = l + 1
-        /\ IF EventOK(Rec[l]) THEN TRUE ELSE PrintT(<<"BAD", l>>)
+        /\ LET v == Verdict(Rec[l]) IN
+           CASE v = "" -> TRUE
+             [] v = "skip" -> PrintT(<<"SKIP", l>>)
+             [] OTHER -> PrintT(<<"BAD", l, v>>)
 Spec == Init /\ [][Next]_l
 Accepted == TLCGet("stats").diameter - 1 = Len(Rec)
 Post == IF Accepted THEN TRUE ELSE PrintT(<<"UNCONSUMED", TLCGet("stats").diameter>>) /\ FALSE
